@@ -11,7 +11,8 @@ _TRUSTED = [
     "harness generator `hqv journal gen` mirrors the order in which job.rs / state.rs / client handlers / the tako reactor "
     "emit events; every generated prefix is checked against the Lean predicate `Producible` by the driver (out-tag `prod`)",
     "hooks in crates/hyperqueue/src/verif/journal.rs repeat the call sequence of bootstrap::start_server on a socket-less "
-    "tako VerifServer (no TCP listeners, no autoalloc service: the queue id is issued by a fresh AutoAllocState)",
+    "tako VerifServer (no TCP listeners); the first queue id after a restart is issued by the real AddQueue handler of an autoalloc "
+    "state seeded with the restored counter AFTER the restored queues were re-added under their old ids through that same handler",
 ]
 
 _PART = {
@@ -38,7 +39,7 @@ PROPS = {
                 "projection {res, ctr, next, uid, prod}; a case is distinct by the hash of its op sequence, non-trivial with >= 2 ops",
     },
     "C10": {
-        "module": "HqModel.Props.C10Emit",
+        "module": "HqModel.Props.C10Restart",
         "theorems": [
             "HqModel.C10.c10_restore_refines", "HqModel.C10.c10_prefix", "HqModel.C10.c10_every_crash_point",
             "HqModel.C10.c10_torn_tail", "HqModel.C10.c10_torn_tail_load", "HqModel.C10.c10_truncate_append",
@@ -49,6 +50,9 @@ PROPS = {
             "HqModel.C10.c10_emitted_late_start_witness", "HqModel.C10.c10_emitted_consumers_witness",
             "HqModel.C10.c10_emitted_instance_witness", "HqModel.C10.c10_emitted_lost_twice_witness",
             "HqModel.C10.c10_emitted_entries_witness", "HqModel.C10.c10_emitted_poison_submit_witness",
+            "HqModel.C10.c10_restart_no_running", "HqModel.C10.c10_restart_wf", "HqModel.C10.c10_restart_inv",
+            "HqModel.C10.c10_emitted_across_restarts", "HqModel.C10.c10_emitted_lives", "HqModel.C10.c10_emitted_lives_restore",
+            "HqModel.C10.c10_lives_first",
         ],
         "parts": [dict(_PART, tags=["res", "trunc", "job", "cnt", "task", "sub", "adj", "core", "queue", "prod"],
                        clauses=["c10.", "gen.", "c03.restart", "c06.restart", "c07.restart"]),
@@ -62,8 +66,12 @@ PROPS = {
             "c10_emitted_dep_closed, c10_emitted_restore: every prefix of the journal M4 writes, also when other emitters' records are "
             "interleaved) under the decidable side condition Emit.EmitOk (late start, instance ids increasing, consumer closure of a "
             "failure, worker ids, array shape); hqm-job evaluates it on the pre-state of every real operation (mon FAIL c10.emit <sig>); "
-            "each conjunct is shown necessary by a decide-witness; one server life from the empty state (a restart re-enters through "
-            "c10_emitted_step once Emit.Inv is shown for the restored state: not done)",
+            "each conjunct is shown necessary by a decide-witness; ACROSS ANY NUMBER OF RESTARTS (c10_emitted_lives, "
+            "c10_emitted_lives_restore: a list of server lives, each possibly crashing after any number of its records reached the file; the "
+            "restored job-layer state jobStateOf R X satisfies StateWF and the emit invariant, so every prefix of the whole file is again "
+            "Producible / DepClosed / NoStartBeforeCreate and the restart clauses of C03, C06, C07 apply at every crash point of every life); "
+            "after a restart the EmitOk conjuncts about instance ids and worker ids are obligations on the core / id counters (C06 restart "
+            "clause, C11) and are evaluated on real traces only within one life",
             "c10_restore_refines is full strength for the code after the fixes 08d60f1 (F9), 05de231 (F10), 360a725 (F11), "
             "40220c7 (F17); it includes the restart clauses of C03 (remaining deps), C06 (next instance id) and C07 (crash "
             "counter) as `handle_new_tasks` applies the adjust map",
